@@ -294,6 +294,6 @@ def history_cases(draw):
 
 def parts(tier):
     return [
-        Hyp("channels-and-encodings", file_cases, quick=600, thorough=20000),
-        Hyp("histories", history_cases, quick=500, thorough=15000),
+        Hyp("channels-and-encodings", file_cases, quick=1500, thorough=20000),
+        Hyp("histories", history_cases, quick=1500, thorough=15000),
     ]
